@@ -97,6 +97,10 @@ def run(case):
             return {"obs": [_rows(r.data, per, f.data.shape[1:]), tb.u(r.sliding_window.start)], "ok": bool(ok), "nrows": nrows}
         if k == "iter":
             f, per = _feature(tb, case)
+            for _k, _x in enumerate(f):      # an iteration abandoned after two frames: the next one restarts at frame 0
+                if _k == 1:
+                    break
+            next(iter(f), None)
             it = [[_rows([row], per, f.data.shape[1:])[0], tb.us(seg)] for seg, row in f]
             it2 = [[_rows([row], per, f.data.shape[1:])[0], tb.us(seg)] for row, seg in f.iterfeatures(window=True)]
             ok = it == it2 and len(list(f.iterfeatures())) == len(f) == case["n"] and f.dimension == 3
